@@ -359,3 +359,49 @@ def run(ck):
     lib.self_view_rule(ck, "C19-R5", ['Pistache::Address', 'Pistache::IP', 'Pistache::Port'],
                        "addresses are stored and passed by value (Endpoint options, Peer)")
 
+    # ---------------- R6: whatever is rejected is rejected as std::invalid_argument ----------------
+    ck.rule("C19-R6", "F effect check over the call graph (exception types)",
+            "every throw expression in a library function reachable from the address / port parsers (Address constructors and init, "
+            "AddressParser, Port(const std::string&)) throws std::invalid_argument, or is thrown by a helper all of whose callers in that "
+            "closure catch its type and answer with std::invalid_argument -- the caller of Address(text) is promised one exception type "
+            "for 'not an address'", 8)
+    roots6 = [f_ for f_ in prog.funcs.values() if f_.base in ("Pistache::Address::init", "Pistache::AddressParser::AddressParser", "Pistache::Port::Port",
+                                                               "Pistache::Address::Address") and f_.blocks]
+    ck.require(len(roots6) >= 4, "address parser entry points found: %d" % len(roots6))
+    reach6 = lib.callgraph_reach(prog, roots6)
+    inlib = lambda f_: (f_.file.startswith(facts.REPO + "/src/") or f_.file.startswith(facts.REPO + "/include/"))
+
+    def covers(handler_type, thrown):
+        h = handler_type.replace("const ", "").replace("&", "").strip()
+        if h in ("...", "std::exception", thrown):
+            return True
+        return h == "std::runtime_error" and thrown in ("std::system_error", "std::range_error", "std::overflow_error", "std::underflow_error")
+
+    def converts(fn_, thrown):
+        hs = [b for b in fn_.blocks.values() if b.label and b.label.get("k") == "catch" and covers(b.label.get("type") or "", thrown)]
+        for hb in hs:
+            evs = cfg.events_from_block(fn_, hb.id)
+            if any(e["k"] == "throw" and e.get("type") == "std::invalid_argument" for e in evs):
+                return True
+        return False
+    nthrow = 0
+    for fid, (f2, chain) in sorted(reach6.items()):
+        if not inlib(f2) or not f2.blocks:
+            continue
+        for e in f2.events("throw"):
+            ty = e.get("type") or "?"
+            nthrow += 1
+            ok = ty == "std::invalid_argument"
+            if not ok and ty != "?":
+                callers = [c_.func for c_ in prog.call_sites(f2.base) if prog.owner(c_.func).id in reach6 or c_.func.id in reach6]
+                ok = bool(callers) and f2 not in roots6 and all(converts(prog.owner(c_), ty) for c_ in callers)
+            if ty == "?" and not e.get("t", "").strip().rstrip(";") == "throw":
+                ok = False
+            elif ty == "?":
+                ok = True       # a bare `throw;` re-raises what was already judged
+            ck.ob("C19-R6", "throw@%s:%s" % (f2.base.replace("Pistache::", ""), ty), ok, e.loc, f2,
+                  "std::invalid_argument (or converted to it by every caller)" if ok else
+                  "%s throws %s on the way of an address text through the parser and no caller turns it into std::invalid_argument: "
+                  "malformed text is rejected with another exception type" % (f2.name, ty), path=chain)
+    ck.require(nthrow >= 8, "throw expressions in the address parser closure: %d" % nthrow)
+
